@@ -138,12 +138,11 @@ Scribble(a) ==
 (* ---- the closure returns (a.a = "close"), or returns after b.initialized() (a.a = "closeinit", *)
 (* data = the slice it returned).  The intermediate object is dropped: nested: the parent counts  *)
 (* the bytes; top level: the owner's length is written back.                                      *)
-Close(a) ==
-  /\ phase = "open"
-  /\ LET v == Top
-         n == Len(views)
-         data == IF a.a = "closeinit" THEN v.log ELSE <<>> IN
-     IF n > 1
+\* release of the innermost view `v` (its final record), `data` = the slice handed to the caller,
+\* `m` = the memory at that moment
+Release(a, v, data, m, d) ==
+  LET n == Len(views) IN
+  /\ IF n > 1
      THEN LET p == views[n - 1]
               p2 == [p EXCEPT !.init = p.init + v.init, !.log = p.log \o v.log] IN
           /\ views' = Append(SubSeq(views, 1, n - 2), p2)
@@ -153,9 +152,32 @@ Close(a) ==
           /\ phase' = "closed"
           /\ olen' = OlenAfter(v.init)
           /\ done' = (IF kind = "sliceref" THEN <<>> ELSE done) \o v.log
-          /\ out' = [r |-> "ok", data |-> data, olen |-> OlenAfter(v.init), own |-> Own(mem, OlenAfter(v.init))]
-  /\ act' = a /\ det' = TRUE /\ ops' = ops + 1
-  /\ UNCHANGED <<kind, cap, len0, mem0, mem>>
+          /\ out' = [r |-> "ok", data |-> data, olen |-> OlenAfter(v.init), own |-> Own(m, OlenAfter(v.init))]
+  /\ act' = a /\ det' = d /\ ops' = ops + 1
+  /\ UNCHANGED <<kind, cap, len0, mem0>>
+
+Close(a) ==
+  /\ phase = "open"
+  /\ Release(a, Top, IF a.a = "closeinit" THEN Top.log ELSE <<>>, mem, TRUE)
+  /\ UNCHANGED mem
+
+(* ---- reader.read_buffer_ref(b): the view itself -- which may already hold bytes -- is handed to *)
+(* a byte-slice reader holding a.bs: min(len bs, remaining) bytes are stored behind what is there  *)
+(* and counted, the view is consumed and released.  a = [a |-> "readclose", bs].  The slice        *)
+(* returned is everything the view holds, old bytes first (what the code does: initialized());     *)
+(* the documentation of ReadBufferRef speaks of "the newly written bytes": returning exactly the   *)
+(* bytes the reader stored is the other reading the property allows (det = FALSE).  Any other      *)
+(* window (e.g. the first `read` bytes of the view) reports bytes that are neither.                *)
+ReadClose(a) ==
+  /\ phase = "open" /\ Bytes(a.bs)
+  /\ LET v == Top
+         m == Min(Len(a.bs), Rem(v))
+         new == Take(a.bs, m)
+         v2 == [v EXCEPT !.init = v.init + m, !.log = v.log \o new]
+         mem2 == Put(mem, v.off + v.init, new) IN
+     /\ mem' = mem2
+     /\ \/ Release(a, v2, v2.log, mem2, TRUE)
+        \/ v.log # <<>> /\ Release(a, v2, new, mem2, FALSE)
 
 (* ---- a panic inside the innermost closure unwinds through every open view: all intermediates *)
 (* are dropped, innermost first.                                                                *)
@@ -217,6 +239,7 @@ Step(a) ==
     [] a.a \in {"close", "closeinit"} -> Close(a)
     [] a.a = "unwind" -> Unwind(a)
     [] a.a = "read" -> Read(a)
+    [] a.a = "readclose" -> ReadClose(a)
     [] a.a = "final" -> Final(a)
     [] OTHER -> FALSE
 
@@ -263,10 +286,21 @@ Frame ==
 
 \* releasing a view adds exactly its count to the parent / owner
 WriteBack ==
-  [][ (act'.a \in {"close", "closeinit"}) =>
+  [][ (act'.a \in {"close", "closeinit", "readclose"}) =>
+        LET add == Top.init + (IF act'.a = "readclose" THEN Min(Len(act'.bs), Rem(Top)) ELSE 0) IN
         IF Len(views) > 1
-        THEN views'[Len(views) - 1].init = views[Len(views) - 1].init + Top.init
-        ELSE olen' = OlenAfter(Top.init) ]_vars
+        THEN views'[Len(views) - 1].init = views[Len(views) - 1].init + add
+        ELSE olen' = OlenAfter(add) ]_vars
+
+\* every slice handed to the caller consists of bytes written through the view it comes from, in order:
+\* the whole view (initialized(), read_buffer_ref) or its newest part (read_buffer on a fresh view,
+\* the documented reading of read_buffer_ref) -- never a window that mixes or repeats
+Suffix(s, t) == Len(s) <= Len(t) /\ SubSeq(t, Len(t) - Len(s) + 1, Len(t)) = s
+SliceReported ==
+  [][ (act'.a \in {"closeinit", "readclose"}) =>
+        LET whole == Top.log \o (IF act'.a = "readclose" THEN Take(act'.bs, Min(Len(act'.bs), Rem(Top))) ELSE <<>>) IN
+        /\ Suffix(out'.data, whole)
+        /\ (det' => out'.data = whole) ]_vars
 
 \* a write that does not fit is refused, and what was counted fits
 Refusal ==
